@@ -178,6 +178,11 @@ pub(crate) struct ReadyPipeQueue<T: Send + 'static> {
   pub(crate) pipes: Arc<RwLock<HashMap<usize, Arc<PipeSlot<T>>>>>,
   pub(crate) ready_rx: AsyncReceiver<Arc<PipeSlot<T>>>,
   ready_tx: AsyncSender<Arc<PipeSlot<T>>>,
+  /// Set by `close()`. The ready list only disconnects once every producer handle is gone, and those are
+  /// held by sessions (and by sockets for connections not yet attached): a consumer parked in `pop()`
+  /// must not depend on them to learn that the socket was closed.
+  closed: std::sync::atomic::AtomicBool,
+  close_notify: tokio::sync::Notify,
 }
 
 impl<T: Send + 'static> ReadyPipeQueue<T> {
@@ -189,6 +194,8 @@ impl<T: Send + 'static> ReadyPipeQueue<T> {
       pipes: Arc::new(RwLock::new(HashMap::new())),
       ready_rx: rx,
       ready_tx: tx,
+      closed: std::sync::atomic::AtomicBool::new(false),
+      close_notify: tokio::sync::Notify::new(),
     }
   }
 
@@ -237,11 +244,23 @@ impl<T: Send + 'static> ReadyPipeQueue<T> {
 
   pub async fn pop(&self) -> Result<(usize, T), ZmqError> {
     loop {
-      let slot = match self.ready_rx.recv().await {
-        Ok(s) => s,
-        Err(RecvError::Disconnected) => {
-          return Err(ZmqError::InvalidState("ready queue closed"));
-        }
+      // Register for the close notification before looking at the flag, so that a close() in between
+      // is not missed.
+      let closed = self.close_notify.notified();
+      tokio::pin!(closed);
+      closed.as_mut().enable();
+      if self.closed.load(Ordering::Acquire) {
+        return Err(ZmqError::InvalidState("ready queue closed"));
+      }
+      let slot = tokio::select! {
+        biased;
+        _ = &mut closed => return Err(ZmqError::InvalidState("ready queue closed")),
+        r = self.ready_rx.recv() => match r {
+          Ok(s) => s,
+          Err(RecvError::Disconnected) => {
+            return Err(ZmqError::InvalidState("ready queue closed"));
+          }
+        },
       };
       #[cfg(rzmq_verif)]
       crate::verif::point("rpq.pop.got_slot");
@@ -356,6 +375,8 @@ impl<T: Send + 'static> ReadyPipeQueue<T> {
   pub fn close(&self) {
     self.pipes.write().clear();
     self.ready_tx.close();
+    self.closed.store(true, Ordering::Release);
+    self.close_notify.notify_waiters();
   }
 }
 
